@@ -49,6 +49,9 @@ def run(cx):
     bad_marks = []
     tid = 0
     for procs in (1, 2, 16):
+        if len(cx.violations) >= 20:
+            cx.notes.append("GOMAXPROCS=%d skipped: the batches before it already gave %d findings" % (procs, len(cx.violations)))
+            continue
         rows = []
         for t in topos:
             row = dict(t)
